@@ -441,6 +441,25 @@ func processOne(s *scratch, spec *propSpec, b budget, bin, sig string, cands []s
 			}
 		}
 		note := fmt.Sprintf("confirmed in a fresh process (attempt %d)", tried)
+		warmed := false
+		if hits == 0 && isRace && !sameLogNoViolation {
+			// a race that depends on what earlier runs of the worker left in package-level tables or std-internal pools:
+			// re-execute those runs first, in the same process
+			out, code := runTool(bin, raceEnv("warm"), "replay", "-warmup", f)
+			lastOut = out
+			if strings.Contains(out, "same_class=true") && (code == 1 || code == 66) {
+				hits++
+				warmed = true
+				note = "confirmed in a fresh process after re-executing the preceding runs of the finding worker as warm-up (the replay file says warm_up: true)"
+				if wrf, err := detsim.ReadReplay(f); err == nil {
+					wrf.WarmUp = true
+					wrf.Write(f)
+				}
+			}
+		}
+		if warmed {
+			shrinkBudget = 0
+		}
 		if hits == 0 {
 			if sameLogNoViolation {
 				return confirmed{}, fmt.Errorf("violation %s from %s: a fresh process reproduced the same event log but not the violation - the harness's oracle is nondeterministic, refusing to report:\n%s", sig, f, lastOut)
